@@ -124,6 +124,11 @@ func (g *G) emitEqual() {
 }
 
 func (g *G) emitCompare(withEqual bool) {
+	// cmpeqv: the same question on a type that reaches a value-parameter Compare method (its own witness class)
+	ceq := "cmpeq"
+	if !gen.MethodsAgree(g.env, g.t, "Cv", "\x00") {
+		ceq = "cmpeqv"
+	}
 	i, gt, q := g.i, g.gt, g.q
 	fmt.Fprintf(q, "\nfunc Compare_%d(a, b %s) int { return deriveCompare_%d(a, b) }\n", i, gt, i)
 	fmt.Fprintf(q, "func CompareC_%d(a, b %s) int { return deriveCompareC_%d(a)(b) }\n", i, gt, i)
@@ -134,12 +139,12 @@ func (g *G) emitCompare(withEqual bool) {
 	g.reg("comparec", 2, fmt.Sprintf("return rt.Int(%s.CompareC_%d(x, y))", g.qn, i))
 	g.reg("comparef", 2, fmt.Sprintf("return rt.Int(%s.CompareF_%d(x, y))", g.qn, i))
 	if withEqual {
-		g.reg("cmpeq", 2, fmt.Sprintf("return rt.Bool((%s.Compare_%d(x, y) == 0) == %s.Equal_%d(x, y))", g.qn, i, g.qn, i))
+		g.reg(ceq, 2, fmt.Sprintf("return rt.Bool((%s.Compare_%d(x, y) == 0) == %s.Equal_%d(x, y))", g.qn, i, g.qn, i))
 	}
 	g.pairs(func(ai, bi int, x, y *ty.Val) {
 		g.ow.op("compare", g.tn, x.Wire(), y.Wire())
 		if withEqual {
-			g.ow.op("cmpeq", g.tn, x.Wire(), y.Wire())
+			g.ow.op(ceq, g.tn, x.Wire(), y.Wire())
 		}
 		if (ai+bi)%3 == 0 {
 			g.ow.op("comparef", g.tn, x.Wire(), y.Wire())
@@ -157,7 +162,7 @@ func (g *G) emitCompare(withEqual bool) {
 		g.ow.op("compare", g.tn, mu.Wire(), x.Wire())
 		g.ow.op("comparef", g.tn, mu.Wire(), x.Wire())
 		if withEqual {
-			g.ow.op("cmpeq", g.tn, x.Wire(), mu.Wire())
+			g.ow.op(ceq, g.tn, x.Wire(), mu.Wire())
 		}
 	})
 }
@@ -193,6 +198,10 @@ func (g *G) emitHash(withEqual bool) {
 	}
 	g.withMutations(func(x, mu *ty.Val) {
 		g.ow.op("hash", g.tn, mu.Wire())
+		if withEqual {
+			// a one-leaf change that a user-declared Equal ignores must be ignored by the hash too
+			g.ow.op("hasheq", g.tn, x.Wire(), mu.Wire())
+		}
 	})
 }
 
@@ -387,12 +396,12 @@ func main() {
 		if (want["equal"] || want["compare"] || want["hash"]) && eq {
 			g.emitEqual()
 		}
-		consistent := eq && !gen.HasMethods(env, t)
 		if want["compare"] && gen.SupportedCompare(env, t) {
-			g.emitCompare(consistent)
+			g.emitCompare(eq && gen.MethodsAgree(env, t, "E", "C") && gen.MethodsAgree(env, t, "C", "E"))
 		}
 		if want["hash"] && gen.SupportedHash(env, t) {
-			g.emitHash(consistent)
+			// a user Equal that is coarser than the structure obliges the user to declare Hash as well
+			g.emitHash(eq && gen.MethodsAgree(env, t, "E", "H"))
 		}
 		if want["deepcopy"] && gen.SupportedDeepCopy(env, t) {
 			g.emitDeepCopy()
